@@ -20,7 +20,7 @@ for pid in ids:
         engine="verus-contracts",
         level_claimed=dict(category=s.get("category", "proof"), text=s.get("level_text", ""), design_ref=s.get("design_ref", "DESIGN.md section 5 " + pid)),
         level_note=s.get("level_note", ""),
-        technique="contract-based deductive verification (Verus): requires/ensures/invariants/lemmas spliced onto the real functions, extracted mechanically from /repo/src on every run, discharged function by function; must-fail canaries against vacuity; a hand-written scenario library replayed on the real crate as labelled bounded stand-in / witness search when the verifier is undecided" + (s.get("technique_extra") or ""),
+        technique="contract-based deductive verification (Verus): requires/ensures/invariants/lemmas spliced onto the real functions, extracted mechanically from /repo/src on every run, discharged function by function; must-fail canaries against vacuity; as labelled bounded stand-in / witness search when the verifier is undecided (never counted as proved): a hand-written scenario library, exhaustive small-text grids and a regression grid of generated scenarios, all replayed on the real crate through its public API" + (s.get("technique_extra") or ""),
     ))
 nal = []
 for pid in ids:
